@@ -151,6 +151,70 @@ Lemma prim_step_shape d o k sg pk :
   0 <= k /\ step d o = let '(d', v) := read_prim d k sg pk in Ok (d', VNum v).
 Proof. destruct o; cbn; intros H; inversion H; subst; split; try lia; reflexivity. Qed.
 
+
+(* Copy and Data meet the block-read reading of the property *)
+Lemma copy_sig_ok d n d' v :
+  wf d -> copy d n = (d', v) ->
+  copy_sig (d_data d) (d_off d) n (mkObs v (avail d') (d_err d')) (d_off d') = SIG_OK.
+Proof.
+  intros Hwf H. unfold copy in H. unfold copy_sig; cbn [o_val o_err].
+  unfold wf, dlen in Hwf.
+  destruct (n <? 0) eqn:Hn.
+  - inversion H; subst. cbn [set_err d_off d_err d_data].
+    assert ((0 <=? n) = false) as -> by lia. cbn [andb]. rewrite Z.eqb_refl. reflexivity.
+  - unfold has_bytes, dlen in H.
+    destruct ((0 <=? d_off d + n) && (d_off d + n <=? zlen (d_data d))) eqn:Hb.
+    + inversion H; subst. cbn [advance d_off d_err d_data].
+      assert ((0 <=? n) && (d_off d + n <=? zlen (d_data d)) = true) as -> by lia.
+      unfold at_cursor. rewrite val_eqb_refl, Z.eqb_refl. reflexivity.
+    + inversion H; subst. cbn [set_err d_off d_err d_data].
+      assert ((0 <=? n) && (d_off d + n <=? zlen (d_data d)) = false) as -> by lia.
+      rewrite Z.eqb_refl. reflexivity.
+Qed.
+
+Lemma step_sig_block d o d' v :
+  wf d -> step d o = Ok (d', v) -> prim_info o = None ->
+  match o with
+  | OCopy n => copy_sig (d_data d) (d_off d) n (mkObs v (avail d') (d_err d')) (d_off d')
+  | OSeek n =>
+      if (0 <=? d_off d + n) && (d_off d + n <=? zlen (d_data d)) then (if d_off d' =? d_off d + n then SIG_OK else SIG_SEEK)
+      else (if o_err (mkObs v (avail d') (d_err d')) && (d_off d' =? d_off d) then SIG_OK else SIG_SEEK)
+  | OData =>
+      if d_off d + 2 <=? zlen (d_data d) then
+        copy_sig (d_data d) (d_off d + 2)
+          (to_signed 16 (be_val (slice (d_data d) (d_off d) (d_off d + 2)))) (mkObs v (avail d') (d_err d')) (d_off d')
+      else
+        (if val_eqb (o_val (mkObs v (avail d') (d_err d'))) (VBytes []) && o_err (mkObs v (avail d') (d_err d'))
+            && (d_off d' =? d_off d) then SIG_OK else SIG_BLOCK)
+  | _ => SIG_OK
+  end = SIG_OK.
+Proof.
+  intros Hwf H Hp. destruct o; try reflexivity; try discriminate Hp.
+  - cbn [step] in H. inversion H as [Hc]. apply (copy_sig_ok d n d' v Hwf).
+    destruct (copy d n) as [a b]. inversion Hc; reflexivity.
+  - cbn [step] in H. unfold has_bytes, dlen in H.
+    destruct ((0 <=? d_off d + n) && (d_off d + n <=? zlen (d_data d))) eqn:Hb;
+      inversion H; subst; cbn [advance set_err d_off d_err o_err]; rewrite Z.eqb_refl; reflexivity.
+  - cbn [step] in H.
+    destruct (d_off d + 2 <=? zlen (d_data d)) eqn:Hfit.
+    + rewrite (read_fits d 2 true false Hwf ltac:(lia)) in H by (unfold dlen; lia).
+      cbn [d_off advance] in H.
+      inversion H as [Hc0].
+      assert (Hw2 : wf (advance d 2)) by (unfold wf, dlen in *; cbn [advance d_off d_data]; lia).
+      pose proof (copy_sig_ok (advance d 2) _ d' v Hw2 Hc0) as Hc.
+      cbn [advance d_off d_data] in Hc. exact Hc.
+    + rewrite (read_nofit d 2 true false Hwf ltac:(lia)) in H by (unfold dlen; lia).
+      inversion H as [Ec].
+      unfold copy in Ec. cbn in Ec. unfold has_bytes, dlen in Ec. cbn [set_err d_off d_data] in Ec.
+      unfold wf, dlen in Hwf.
+      assert ((0 <=? d_off d + 0) && (d_off d + 0 <=? zlen (d_data d)) = true) as E1 by lia.
+      rewrite E1 in Ec. inversion Ec; subst. cbn [o_val o_err advance set_err d_off d_err d_data].
+      unfold at_cursor. cbn [set_err d_off d_data]. rewrite Z.add_0_r.
+      assert (Hs : slice (d_data d) (d_off d) (d_off d) = []).
+      { unfold slice. replace (d_off d - d_off d) with 0 by lia. reflexivity. }
+      rewrite Hs. cbn. rewrite ?Z.add_0_r, Z.eqb_refl. reflexivity.
+Qed.
+
 Lemma step_sig_ok d o d' v :
   wf d -> step d o = Ok (d', v) ->
   step_sig (d_data d) (d_off d) o (mkObs v (avail d') (d_err d')) = SIG_OK.
@@ -164,7 +228,7 @@ Proof.
   assert (Hin : (0 <=? d_off d') && (d_off d' <=? zlen (d_data d)) = true).
   { unfold wf, dlen in Hw'; rewrite Hd' in Hw'; lia. }
   rewrite Hin; cbn [negb].
-  destruct (prim_info o) as [[[k sg] pk]|] eqn:Hp; [|reflexivity].
+  destruct (prim_info o) as [[[k sg] pk]|] eqn:Hp; [|apply (step_sig_block d o d' v Hwf H Hp)].
   destruct (prim_step_shape d o k sg pk Hp) as [Hk Hs].
   rewrite Hs in H.
   destruct (d_off d + k <=? zlen (d_data d)) eqn:Hfit.
